@@ -28,7 +28,9 @@ DISP = LogT({'event': 'V', 'ns': 'V', 'args': 'seq', 'ret': 'V', 'raised': 'V', 
 
 ISSUED = MapT(Leaf('B'), total=True)                            # session ids ever returned by eio.generate_id()
 EVENTS = MapT(Leaf('B'), total=True)                            # the flag of each threading.Event / asyncio.Event object
-GHOST = {'events': EVENTS, 'calls': CALLS, 'out': OUT, 'raw': RAW, 'tasks': TASKS, 'disp': DISP, 'issued': ISSUED}
+WAITS = LogT({'ev': 'V', 'timeout': 'R', 'woke': 'B'})             # Event.wait(timeout) calls with a numeric timeout, in order
+ATTEMPTS = LogT({'url': 'V', 'headers': 'V', 'auth': 'V', 'transports': 'V', 'namespaces': 'V', 'path': 'V', 'ok': 'B'})   # Client.connect() calls
+GHOST = {'waits': WAITS, 'attempts': ATTEMPTS, 'events': EVENTS, 'calls': CALLS, 'out': OUT, 'raw': RAW, 'tasks': TASKS, 'disp': DISP, 'issued': ISSUED}
 
 
 def server_world(name='server', server_cls=('server', 'Server'), manager_cls=('manager', 'Manager')):
